@@ -228,7 +228,9 @@ def run_model(cases, shards=None):
 
 def _run_sharded(cmd, cases, shards=None, env=None, want_queries=False):
     if shards is None:
-        shards = min(vlib.NCPU, max(1, len(cases) // 2000))
+        # by case count and by input volume (long scripts / control blocks / transactions make single cases expensive for the extracted model)
+        shards = min(vlib.NCPU, max(1, len(cases) // 2000, sum(len(c) for c in cases) // 150000))
+        shards = min(shards, max(1, len(cases)))
     queries = set()
     dirty = set()
     def collect(out):
